@@ -15,7 +15,12 @@ R = Run("C13", "seeded random annotated sequences (8..14 bases, start 1/7, <= 3 
                "slices (open / closed bounds, slice of slice) x feature read and assignment x reverse complement x copy vs a per-base model")
 rng = np.random.default_rng(R.args.seed + 13)
 D = Location.Defect
-COMP = {"A": "T", "C": "G", "G": "C", "T": "A"}
+# IUPAC pairing, derived from the base sets the codes stand for (independent of the library's table): the
+# complement of a code is the code of the complemented set
+_SETS = {"A": "A", "C": "C", "G": "G", "T": "T", "R": "AG", "Y": "CT", "W": "AT", "S": "CG", "M": "AC", "K": "GT",
+         "H": "ACT", "B": "CGT", "V": "ACG", "D": "AGT", "N": "ACGT"}
+_BASE = {"A": "T", "C": "G", "G": "C", "T": "A"}
+COMP = {c: next(k for k, v in _SETS.items() if set(v) == {_BASE[b] for b in bases}) for c, bases in _SETS.items()}
 
 
 def revcomp(s):
@@ -25,7 +30,8 @@ def revcomp(s):
 def rand_annot_seq():
     n = int(rng.integers(8, 15))
     start = int(rng.choice([1, 7]))
-    text = "".join(rng.choice(list("ACGT"), size=n))
+    # every third sequence uses the ambiguity codes as well (ambiguous alphabet)
+    text = "".join(rng.choice(list("ACGTRYWSMKHBVDN" if int(rng.integers(0, 3)) == 0 else "ACGT"), size=n))
     feats = []
     for f in range(int(rng.integers(1, 4))):
         # disjoint locations inside the sequence
